@@ -321,6 +321,10 @@ func runExecWithRetries(ctx context.Context, node Node, item Result) (any, error
 		maxRetries = retryable.GetMaxRetries()
 		wait = retryable.GetWait()
 	}
+	// A budget below one still means one attempt: an item must never be skipped.
+	if maxRetries < 1 {
+		maxRetries = 1
+	}
 
 	var execResult any
 	var execErr error
